@@ -1092,7 +1092,11 @@ func (fa *FA) linLen(s *Sym, mod int) *Lin {
 			hi = fa.linSym(x.Args[2], 0)
 		} else {
 			base := x.Args[0]
-			if _, isPtr := base.T.Underlying().(*types.Pointer); isPtr {
+			if pt, isPtr := base.T.Underlying().(*types.Pointer); isPtr {
+				if arr, ok := pt.Elem().Underlying().(*types.Array); ok {
+					hi = linConst(arr.Len()) // a[:] of an array (e.g. the variadic argument array)
+					return hi.Sub(lo)
+				}
 				return linAtom(s)
 			}
 			hi = fa.linSym(&Sym{Op: "len", K: "len(" + base.K + ")", Args: []*Sym{base}, T: s.T}, 0)
